@@ -49,10 +49,10 @@ Definition qpos (x : Q) : Q := if Qle_bool x 0 then 0 else x.
    |s v - l v|^2 / (t^2 v.v) with l the Rayleigh quotient, |v.v - 1|, and l is the smallest (least = true)
    or largest root of the characteristic polynomial: p'(l) >= 0 and 3 l <= tr (resp. >=), scaled by t *)
 Definition eigvec_residuals (least : bool) (t : Q) (s : sym3) (v : qvec) : list Q :=
-  let vv := Qred (dot3 v v) in
+  let vv := dot3 v v in
   let sv := sym_apply s v in
-  let l := Qred (dot3 v sv / vv) in
-  let r := (Qred (vx sv - l * vx v), Qred (vy sv - l * vy v), Qred (vz sv - l * vz v)) in
+  let l := dot3 v sv / vv in
+  let r := (vx sv - l * vx v, vy sv - l * vy v, vz sv - l * vz v) in
   [dot3 r r / (t * t * vv); vv - 1;
    qpos (- charpoly' s l / (t * t));
    qpos ((if least then (3 # 1) * l - tr3 s else tr3 s - (3 # 1) * l) / t)].
@@ -70,6 +70,47 @@ Definition nematic_q (ds : list qvec) : sym3 :=
 Definition s2_residuals (ds : list qvec) (s2 : Q) : list Q :=
   let q := nematic_q ds in
   [charpoly q s2; qpos (- charpoly' q s2); qpos (tr3 q - (3 # 1) * s2)].
+
+(* ---- the same residuals evaluated with every intermediate fraction kept in lowest terms (Qred x == x;
+   OrderProofs.eigvec_residuals_r_eq / s2_residuals_r_eq); only this changes the running time, not the values *)
+Definition radd (a b : Q) : Q := Qred (a + b).
+Definition rsub (a b : Q) : Q := Qred (a - b).
+Definition rmul (a b : Q) : Q := Qred (a * b).
+Definition rdiv (a b : Q) : Q := Qred (a / b).
+
+Definition sym_apply_r (s : sym3) (v : qvec) : qvec :=
+  let '(xx, yy, zz, xy, xz, yz) := s in
+  (radd (radd (rmul xx (vx v)) (rmul xy (vy v))) (rmul xz (vz v)),
+   radd (radd (rmul xy (vx v)) (rmul yy (vy v))) (rmul yz (vz v)),
+   radd (radd (rmul xz (vx v)) (rmul yz (vy v))) (rmul zz (vz v))).
+Definition dot3_r (u v : qvec) : Q := radd (radd (rmul (vx u) (vx v)) (rmul (vy u) (vy v))) (rmul (vz u) (vz v)).
+
+Definition e2_3_r (s : sym3) : Q :=
+  let '(xx, yy, zz, xy, xz, yz) := s in
+  radd (radd (rsub (rmul xx yy) (rmul xy xy)) (rsub (rmul xx zz) (rmul xz xz))) (rsub (rmul yy zz) (rmul yz yz)).
+Definition det3_r (s : sym3) : Q :=
+  let '(xx, yy, zz, xy, xz, yz) := s in
+  radd (rsub (rmul xx (rsub (rmul yy zz) (rmul yz yz))) (rmul xy (rsub (rmul xy zz) (rmul yz xz))))
+       (rmul xz (rsub (rmul xy yz) (rmul yy xz))).
+Definition tr3_r (s : sym3) : Q := let '(xx, yy, zz, xy, xz, yz) := s in radd (radd xx yy) zz.
+
+Definition charpoly_r (s : sym3) (x : Q) : Q :=
+  rsub (radd (rsub (rmul (rmul x x) x) (rmul (tr3_r s) (rmul x x))) (rmul (e2_3_r s) x)) (det3_r s).
+Definition charpoly'_r (s : sym3) (x : Q) : Q :=
+  radd (rsub (rmul (3 # 1) (rmul x x)) (rmul (rmul (2 # 1) (tr3_r s)) x)) (e2_3_r s).
+
+Definition eigvec_residuals_r (least : bool) (t : Q) (s : sym3) (v : qvec) : list Q :=
+  let vv := dot3_r v v in
+  let sv := sym_apply_r s v in
+  let l := rdiv (dot3_r v sv) vv in
+  let r := (rsub (vx sv) (rmul l (vx v)), rsub (vy sv) (rmul l (vy v)), rsub (vz sv) (rmul l (vz v))) in
+  [rdiv (dot3_r r r) (rmul (rmul t t) vv); rsub vv 1;
+   qpos (rdiv (- charpoly'_r s l) (rmul t t));
+   qpos (rdiv (if least then rsub (rmul (3 # 1) l) (tr3_r s) else rsub (tr3_r s) (rmul (3 # 1) l)) t)].
+
+Definition s2_residuals_r (ds : list qvec) (s2 : Q) : list Q :=
+  let q := nematic_q ds in
+  [charpoly_r q s2; qpos (- charpoly'_r q s2); qpos (rsub (tr3_r q) (rmul (3 # 1) s2))].
 
 (* ------------------------------------------------------------------ groups: 'chains' / 'residues' *)
 Local Open Scope nat_scope.
@@ -123,11 +164,11 @@ Definition run_directors (c : Q * Z * list rawres * gspec * list (list zvec * li
      let pts := map (to_q unit) (fst fd) in
      flat_map (fun gv =>
         let s := inertia (pick 0 ms (fst gv)) (pick (0, 0, 0) pts (fst gv)) in
-        eigvec_residuals true (tr3 s) s (snd gv)) (combine groups (snd fd))) fl).
+        eigvec_residuals_r true (tr3 s) s (snd gv)) (combine groups (snd fd))) fl).
 
 (* number of groups, for the shape check *)
 Definition run_ngroups (c : list rawres * gspec) : list Z := [Z.of_nat (length (groups_of (fst c) (snd c)))].
 
 (* nematic order: (tol, [(reported directors, reported S2)]) *)
 Definition run_nematic (c : Q * list (list qvec * Q)) : Q * list Q :=
-  let '(tol, fl) := c in (tol, flat_map (fun x => s2_residuals (fst x) (snd x)) fl).
+  let '(tol, fl) := c in (tol, flat_map (fun x => s2_residuals_r (fst x) (snd x)) fl).
